@@ -54,6 +54,36 @@ CLAIMED = {
         design_ref="§4 C03",
         note="render-time error kinds are the seven listed in ErrorModes.tla; parse-time family bounded by length 4 (thorough 5); resource-limit errors are covered under C07/C08",
     ),
+    "C14": dict(
+        technique="TLA+ spec Scope.tla (chain-of-namespaces mechanism of RenderContext vs the innermost-binding requirement, the template as a free environment) and Paths.tla (segment-by-segment path resolution over a nested data tree) model-checked with TLC; every emitted program / path rendered in the real engine with every read compared",
+        text="TLC checks InnermostBinding/AssignWritesTopLevel/BlockScopeVanishes/Isolation/CallerUnaffected/Balanced on every well-nested sequence of <=4 (thorough 5) binding steps (for, tablerow, with, include with/without argument, render with/without argument, macro call with/without its argument, assign, capture, increment, decrement, break/continue, nil-valued bindings) over 1-2 names x which of render arguments / front matter / template globals / environment globals bind the names; after every step every name, forloop and forloop.parentloop are read; each closed program is concretised (keyword / `with..as` / `for..as` argument forms, `{{ }}` / echo reads; partials in a DictLoader) and rendered sync+async, every read compared with the specification's. Paths.tla: UndefinedIsSticky/SizeIsLength/NegativeIndexFromEnd/FirstLastAreEnds on every path of <=2 (thorough 3) segments over 20 segment kinds (keys, quoted keys, indexes incl. negative and out of range, size/first/last, bracketed variables incl. nested and undefined ones); each rendered in dotted/bracketed/quoted syntax, directly and through assign, under Undefined and StrictUndefined",
+        design_ref="§4 C14, §3.6",
+        note="arguments of an ENCLOSING render read from a nested render are unspecified; first/last of hashes and strings, indexes into strings, size of numbers are unspecified; quick replays a 24k sample of the enumerated programs; builtin now/today and reserved names are not in the family",
+    ),
+    "C15": dict(
+        technique="TLA+ spec Scope.tla (copy of a render context for render tags and macro calls vs the isolation requirement) model-checked with TLC; every emitted program containing a render or call rendered in the real engine with every read inside and after it compared",
+        text="TLC checks Isolation (inside a rendered partial or macro no read is answered by the caller's locals or pushed namespaces; the caller's loops are not visible as forloop/parentloop), CallerUnaffected (after the construct every name reads as before and the callee's context is gone), IncludeDisabledInsideRender on the same family as C14; programs with at least one render / call (keyword, `with..as`, omitted-argument forms), with the caller binding the SAME names around it through for, tablerow, with, include, assign, capture, increment, decrement, are rendered sync+async; reads inside the construct and at its close must equal the specification's; include inside render/macro must raise DisabledTagError",
+        design_ref="§4 C15, §3.6",
+        note="same bounds as C14; a name bound only as the argument of an enclosing render is unspecified; macros are defined immediately before their call",
+    ),
+    "C16": dict(
+        technique="TLA+ spec Undef.tla (uses of present/missing references walked once per undefined type, per-type verdict must-succeed / must-raise / either) model-checked with TLC; every emitted template rendered under the four undefined types; the four outcomes judged by the TLA+ monitor UndefMonitor.tla (RefinesDefault, StrictRaises, DefaultNeverRaises) in a batched TLC run",
+        text="TLC checks DefaultNeverRaisesSpec/StrictRaisesSpec/NothingMissingAllOk on every template of <=2 uses over 21 use kinds (output, echo, captured output, for, tablerow, if, unless, ==1/nil/false/empty, contains, upcase, size, default, join, assign, ternary, case, index, filter argument) x 5 reference kinds (present, missing root, missing sub-path, below a missing root, out-of-range index); each is rendered sync+async under Undefined, StrictUndefined, FalsyStrictUndefined, StrictDefaultUndefined; UndefMonitor.tla must accept the four outcomes (strict ok => same output as default; StrictUndefined raises UndefinedError on output/iterate/compare/filter of something missing; the default type never raises; only UndefinedError appears); the default type's text is compared where documented; plus path templates over the C14 data tree with every subset of <=2 sub-paths removed",
+        design_ref="§4 C16",
+        note="where FalsyStrictUndefined / StrictDefaultUndefined raise is not fixed by the statement; truthiness, ternary condition, assignment without use and use as index / filter argument are not among the uses StrictUndefined must reject",
+    ),
+    "C07": dict(
+        technique="TLA+ spec Limits.tla (buffer stack with carried sizes and context chain with carried namespace size = mechanism; bytes in the result and sizes alive in the chain = ghost truth; the template as a free environment) model-checked with TLC; every emitted behaviour rendered in the real engine under the same limit",
+        text="TLC checks OutputBounded/TopIsGhost/SubBufferBounded/OverLimitRaises/CarryIsCallersTotal/NamespaceBounded/LimitsOnlyAbort on every straight-line template of <=4 (thorough 5) steps: text atoms of 1/2/3/4 UTF-8 bytes, capture, ifchanged, output of a captured variable, include under output limits {none,0,2,4,5,7} (thorough none,0..9); assign of 1/3-character strings to two names, render, macro call, include, for under namespace limits around multiples of the measured size of a string incl. 0 and none; each behaviour is rendered sync+async: status (ok / OutputStreamLimitError / LocalNamespaceLimitError), output text and UTF-8 length must equal the specification's",
+        design_ref="§4 C07, §3.6",
+        note="sub-buffers of control-flow blocks without output of their own (rendered into a null buffer) are outside the family; namespace sizes are those of ASCII strings (sys.getsizeof measured at run time); loops execute once",
+    ),
+    "C08": dict(
+        technique="TLA+ observer machine LimitSweep.tla reading a sweep of limit values in increasing order (EachIsUnlimitedOrResourceError, Monotone), run by TLC over observations recorded from the real engine for programs generated by the TLA+ families LoopNest, Limits, Recursion and BlockParser",
+        text="for every program of LoopNest.tla (loop iteration limit 0..product+2), Limits.tla output family (output limit 0..2*bytes+2), Limits.tla namespace family (40 namespace limits around multiples of the measured string size), Recursion.tla graphs entered by include and by render (context depth 0..15, 29..31) and accepted BlockParser.tla sequences (block nesting 0..6): the program is rendered sync+async without the limit and under every value; LimitSweep.tla must accept each sweep: every outcome is the unlimited result or a ResourceLimitError subclass, and after the first success every larger value succeeds with the same output",
+        design_ref="§4 C08",
+        note="quick samples 1500 programs per limit kind; 'unlimited' is the engine default (None; 30 for depth and nesting)",
+    ),
     "C09": dict(
         technique="TLA+ spec Recursion.tla (scope-chain and copy-depth counters of recursive include/render/extends/block/call lassos; liveness under WF) and BlockParser.tla (Progress, Terminates) model-checked with TLC; every enumerated family rendered and every token sequence parsed in the real engine under a CPU-time alarm, with the observed recursion level compared with the model's",
         text="TLC checks CutOff/LevelsBounded/Progress and Terminates (WF) on every assignment of one edge (none/include/render/extends/extends+block+include/call) per template over 2 (thorough 3) templates with the edge at block depths {0,12,29} (thorough +5); each family is rendered sync+async: the outcome class must be the model's (ok / ContextDepthError / TemplateInheritanceError / DisabledTagError, never RecursionError or a hang) and, where no stack cut-off is involved, the observed partial-nesting level at the cut-off must equal the model's level exactly (bounded by 2*limit+4 otherwise); every BlockParser token sequence of length<=4 (thorough 6) is parsed and rendered under STRICT/WARN/LAX under a 5 s CPU-time alarm",
